@@ -380,6 +380,71 @@ class SharedRegistry(Suite):
         return repr(case)
 
 
+class ContextNeutral(Suite):
+    """chains on one data directory that differ only in their context - none, a mapping, a file, a Context object, a list -
+    where the context changes a parameter of the last task only (or of no task): the tasks it does not touch have one
+    location in all of them, are computed once and loaded ever after, whichever chain asks, in whatever order, also in a
+    new process.  Runtime check only."""
+    name = 'context_leaves_upstream_alone'
+    model = ''
+
+    def gen(self, rng, tier):
+        orders = [[0, 1, 2, 0, 1], [1, 0, 1, 0, 3], [2, 3, 0, 4, 2], [4, 0, 4, 0, 1]]
+        return [dict(order=o, touch=t, data=d) for o in orders for t in ('top', 'none') for d in ('json',)] + \
+               [dict(order=[1, 0, 1, 0], touch='top', data='dir')]
+
+    def run_impl(self, case):
+        import json
+        from pathlib import Path
+        from taskchain import Config
+        from taskchain.config import Context
+        from .. import pipeline as pl
+        from ..suites_chain import K, P
+        from .c05 import in_child
+        classes = [dict(K(0, 'Load', params=[P('src')], data=case['data']), name='load'),
+                   dict(K(1, 'Clean', meta_inputs=[{'cls': 0}]), name='clean'),
+                   dict(K(2, 'Report', meta_inputs=[{'cls': 1}], params=[P('top', default=[1])]), name='report')]
+        key = 'top' if case['touch'] == 'top' else 'unrelated'
+        with pl.workspace(dict(classes=classes, files={})) as (d, mod):
+            Path('ctx.json').write_text(json.dumps({key: 4}))
+            Path('main.json').write_text(json.dumps({'tasks': [f'{mod}.*'], 'src': 's'}))
+            contexts = [lambda: None, lambda: {key: 3}, lambda: 'ctx.json', lambda: Context(data={key: 5}, name='obj'),
+                        lambda: [{key: 6}, {'other': 1}]]
+
+            def ask(k):
+                ch = Config(Path('data'), 'main.json', context=contexts[k]()).chain()
+                before = len(pl.RUNLOG)
+                v = pl.to_spec(ch['report'].value)
+                return dict(ran=[r[1] for r in pl.RUNLOG[before:]], top=v.get('p', {}).get('top'),
+                            paths={n: str(t.data_path) for n, t in ch.tasks.items()})
+            steps = [ask(k) for k in case['order']]
+            steps.append(in_child(lambda: ask(case['order'][0])))
+            return dict(steps=steps)
+
+    def oracle(self, case, obs):
+        if 'unexpected_exception' in obs:
+            return f'unexpected exception {obs["unexpected_exception"]}: {obs["text"]}'
+        tops = {0: '1', 1: '3', 2: '4', 3: '5', 4: '6'} if case['touch'] == 'top' else {k: '1' for k in range(5)}
+        seen = set()
+        for i, (k, s) in enumerate(zip(case['order'] + [case['order'][0]], obs['steps'])):
+            if 'child_error' in s:
+                return f'{case}: the new process failed: {s["child_error"]}'
+            want = ([] if i else ['load', 'clean']) + ([] if tops[k] in seen else ['report'])
+            if sorted(s['ran']) != sorted(want):
+                return (f'{case}: request {i} (context {k}) ran {s["ran"]}; load and clean are the same computations under every '
+                        f'context and were computed by the first request, report is new only for a new value of top: expected {want}')
+            if s['top'] != tops[k]:
+                return f'{case}: request {i} (context {k}) reports top={s["top"]}, its context gives {tops[k]}'
+            seen.add(tops[k])
+        return None
+
+    def nontrivial(self, case, obs):
+        return True
+
+    def key(self, case):
+        return repr(case)
+
+
 CUSTOM_SRC = '''
 from taskchain import Task
 from taskchain.data import JSONData
@@ -481,7 +546,7 @@ class InspectionRunsNothing(Suite):
 
 class C04(Prop):
     pid = 'C04'
-    suites = [Plain(), Mixed(), DataKinds(), ReadableLinks(), OnDemandInputs(), NameModeNeighbours(), SharedRegistry(), InspectionRunsNothing()]
+    suites = [Plain(), Mixed(), DataKinds(), ReadableLinks(), OnDemandInputs(), NameModeNeighbours(), SharedRegistry(), InspectionRunsNothing(), ContextNeutral()]
     assumptions = ['one-shot data classes (JSON, in-memory); resumable ContinuesData is re-run by design until finished()']
 
 
